@@ -515,3 +515,218 @@ Theorem C09_history_cycle :
   Run prev (pre ++ r1 :: mid1) = o1 /\ Run prev (pre ++ r1 :: mid1 ++ r2 :: mid2) = o2.
 Proof. exact history_cycle. Qed.
 Print Assumptions C09_history_cycle.
+
+Require Import Verif.Check.C09_check Verif.Proofs.JudgeSoundC09P.
+(* ---- the executable properties of Check/C09_check.v are the property (judge soundness) ---- *)
+(* Vocabulary (Proofs/JudgeSoundC09P.v).  [calm o]: o is neither Panic nor Spin.  [wf_runs runs]: every run a <= b (the
+   harness reports a flat executed slice as its maximal +1-runs, so this holds of every case).  [pending_rel reports es
+   out]: the clauses of C09_filter_spec_reports / _executed / C09_pending_exact for an ARBITRARY answer [out] (unfolded
+   in C09_judge_pending_rel_meaning).  The executable properties compare executed lists in the harness's normal form
+   (adjacent runs joined); the theorems below turn that into statements about the numbers in the list. *)
+
+(* sink C09_ranges (computeRanges).  The model's answer passes for every input ... *)
+Theorem C09_judge_ranges_model_passes : forall i, ranges_ok i (ranges_model i) = true.
+Proof. exact ranges_model_passes. Qed.
+Print Assumptions C09_judge_ranges_model_passes.
+
+(* ... and an arbitrary answer that passes never is a crash and, on ascending disjoint report ranges, satisfies the
+   conclusion of C09_compute_ranges *)
+Theorem C09_judge_ranges_sound : forall i o, ranges_ok i o = true ->
+  calm o /\
+  forall r l, i = r :: l -> fst r <= snd r -> snd r < max64 -> asc_from (snd r) l ->
+  exists outs,
+    o = Ok outs /\
+    (forall s, in_union outs s <-> in_union (r :: l) s) /\
+    match outs with x :: rest => fst x = fst r /\ fst x <= snd x /\ gap_above (snd x) rest | [] => False end.
+Proof. exact ranges_sound. Qed.
+Print Assumptions C09_judge_ranges_sound.
+
+(* sinks C09_filter, C09_filter_all (filterOutExecutedMessages).  The model's answer passes on reports without recorded
+   executions and sequence numbers below 2^64-1 (what the harness generates; beyond, F19) ... *)
+Theorem C09_judge_filter_model_passes : forall reports es,
+  (forall r, In r reports -> p_exec r = [] /\ p_hi r < max64) ->
+  Forall (fun e => snd e < max64) es ->
+  filter_ok (reports, es) (filter_model (reports, es)) = true.
+Proof. exact filter_model_passes. Qed.
+Print Assumptions C09_judge_filter_model_passes.
+
+(* ... and an arbitrary answer that passes never is a crash; on a layout and well-formed executed ranges it is an error
+   exactly when the ranges overlap (C09_filter_error_iff for the answer) and otherwise a list with the clauses of
+   C09_filter_spec_reports, C09_filter_spec_executed, C09_pending_exact *)
+Theorem C09_judge_filter_sound : forall reports es o, filter_ok (reports, es) o = true ->
+  calm o /\
+  (layout (by_start reports) -> Forall (fun e => fst e <= snd e) es ->
+   (o = Err <-> es <> [] /\ no_overlap 0 (ranges_by_start es) = false) /\
+   (no_overlap 0 (ranges_by_start es) = true -> exists out, o = Ok out /\ pending_rel reports es out)).
+Proof. exact filter_sound. Qed.
+Print Assumptions C09_judge_filter_sound.
+
+Theorem C09_judge_pending_rel_meaning : forall reports es out,
+  pending_rel reports es out <->
+  ((exists keep : rep -> bool,
+      map p_id out = map p_id (filter keep (by_start reports)) /\
+      forall r, In r (by_start reports) -> (keep r = true <-> ~ all_executed es r)) /\
+   (forall r', In r' out ->
+      exists r, In r reports /\ p_id r' = p_id r /\ p_lo r' = p_lo r /\ p_hi r' = p_hi r /\ ~ all_executed es r /\
+        (wf_runs (p_exec r') ->
+         strict_runs (p_exec r') /\
+         forall s, in_runs (p_exec r') s <-> (p_lo r <= s <= p_hi r /\ in_union es s))) /\
+   (forall r, In r reports ->
+      ((exists r', In r' out /\ p_id r' = p_id r /\ p_lo r' = p_lo r /\ p_hi r' = p_hi r) <-> ~ all_executed es r))).
+Proof. intros reports es out. unfold pending_rel. reflexivity. Qed.
+Print Assumptions C09_judge_pending_rel_meaning.
+
+(* sinks C09_pending, C09_observe (getPendingExecutedReports over a scripted reader).  [world_of world c]: the
+   destination's executed set of chain c; [reader_failed tab]: some executed-ranges query of the call log failed;
+   [honest_answers]: every query of the chain was answered, the answers together are a legal list and show the
+   destination's executed set inside the reports.  The model passes when no query fails and the reader is honest ... *)
+Theorem C09_judge_pend_model_passes : forall l tab world,
+  groups_good (group_by_chain l) ->
+  (forall c reps r, In (c, reps) (group_by_chain l) -> In r reps -> p_exec r = []) ->
+  ~ reader_failed tab ->
+  (forall c reps, In (c, reps) (group_by_chain l) -> honest_answers tab world c reps) ->
+  pend_ok (Some l, tab, world) (pend_model (Some l, tab, world)) = true.
+Proof. exact pend_model_passes. Qed.
+Print Assumptions C09_judge_pend_model_passes.
+
+(* ... and an arbitrary answer that passes: pending EXACTLY the committed reports with a message the DESTINATION has not
+   executed, chain by chain, each recording the destination's executed set inside its interval *)
+Theorem C09_judge_pend_sound : forall crs tab world o, pend_ok (crs, tab, world) o = true ->
+  calm o /\
+  match crs with
+  | None => o = Err
+  | Some l =>
+      groups_good (group_by_chain l) ->
+      match o with
+      | Ok out =>
+          ~ reader_failed tab /\
+          Permutation (map fst out) (map fst (group_by_chain l)) /\
+          (forall c reps, In (c, reps) (group_by_chain l) ->
+             exists outc, In (c, outc) out /\ pending_rel reps (world_of world c) outc) /\
+          (forall c outc, In (c, outc) out ->
+             exists reps, In (c, reps) (group_by_chain l) /\ pending_rel reps (world_of world c) outc)
+      | Err => reader_failed tab
+      | _ => False
+      end
+  end.
+Proof. exact pend_sound. Qed.
+Print Assumptions C09_judge_pend_sound.
+
+(* sinks C09_history (hist_judge) and C09_history_big (histmon_judge): both evaluate hist_ok on the implementation's
+   outcome.  The model of the history sink passes on legal snapshots ... *)
+Theorem C09_judge_hist_model_passes : forall st snap, snap_legal snap -> hist_ok (st, snap) (hist_model (st, snap)) = true.
+Proof. exact (fun st snap H => hist_model_passes snap H st). Qed.
+Print Assumptions C09_judge_hist_model_passes.
+
+(* ... and an arbitrary outcome that passes: a message the destination showed as executed when the cycle started is in
+   no report (the conclusion of C09_never_reexecuted_cycle), every reported message is committed, none twice; before
+   the Filter round the pending reports satisfy the pending-exact clauses per chain of the snapshot *)
+Theorem C09_judge_hist_sound : forall st snap o, hist_ok (st, snap) o = true ->
+  exists pend msgs, o = Ok (pend, msgs, msgs) /\ NoDup msgs /\
+    (forall c s, In (c, s) msgs ->
+       (forall reps ex, In (c, reps, ex) snap -> ~ in_union ex s) /\
+       (exists reps ex r, In (c, reps, ex) snap /\ In r reps /\ p_lo r <= s <= p_hi r)) /\
+    (st = 3 -> forall c r, In (c, r) pend -> p_lo r <= p_hi r ->
+                 exists s, p_lo r <= s <= p_hi r /\ ~ in_runs (p_exec r) s) /\
+    (st <> 3 -> msgs = [] /\
+                (snap_wf snap ->
+                 pending_exact_over snap (fun cre => fst (fst cre)) (fun cre => snd (fst cre)) (fun cre => snd cre) pend)).
+Proof. exact hist_sound. Qed.
+Print Assumptions C09_judge_hist_sound.
+
+(* histmon_judge has no model to compare with: it never reports a mismatch, only hist_ok = false (whose meaning is
+   C09_judge_hist_sound) *)
+Theorem C09_judge_histmon_sound : forall cs p, In p (histmon_judge cs) ->
+  snd p <> 1 /\ exists i o, In (i, o) cs /\ hist_ok i o = false.
+Proof. exact histmon_reports_only_hist_ok. Qed.
+Print Assumptions C09_judge_histmon_sound.
+
+(* sink C09_cycles (whole histories of long-lived plugins).  The model passes on every history whose home-chain
+   configurations name each source chain once ... *)
+Theorem C09_judge_cyc_model_passes : forall V t0 evs,
+  sources_distinct evs -> cyc_ok (V, t0, evs) (cyc_model (V, t0, evs)) = true.
+Proof. exact cyc_model_passes. Qed.
+Print Assumptions C09_judge_cyc_model_passes.
+
+(* ... and an arbitrary observation list that passes has one observation per cycle, and the observation of every cycle
+   satisfies [cycle_P] on the state the history has reached when the cycle starts.  cycle_P (Proofs/JudgeSoundC09P.v):
+   reader arguments from the current clock; the report holds exactly the candidates of C09_hist_candidates, each once;
+   pending after GetCommitReports as in C09_hist_pending_exact; pending after Filter = the reports with a message
+   neither executed nor reported.  Because the report is the candidate set, what lands of it moves the destination as
+   in the model, so the states are the model's [reached] states - for EVERY passing implementation *)
+Theorem C09_judge_cyc_sound : forall V t0 evs1 nobs land evs2 o,
+  cyc_ok (V, t0, evs1 ++ ECycle nobs land :: evs2) o = true ->
+  exists outs ob, o = Ok outs /\
+    nth_error outs (length (filter (fun e => match e with ECycle _ _ => true | _ => false end) evs1)) = Some ob /\
+    cycle_P V (reached V t0 evs1) nobs ob /\
+    (forall m, In m (obs_offered ob) <-> candidate V (reached V t0 evs1) m) /\ NoDup (obs_offered ob).
+Proof.
+  intros V t0 evs1 nobs land evs2 o H. destruct (cyc_sound_at V t0 evs1 nobs land evs2 o H) as [outs [ob [E [Hn P]]]].
+  exists outs, ob. split; [exact E|]. split; [exact Hn|]. split; [exact P|]. split; [exact (proj1 (proj2 P))|exact (proj1 (proj2 (proj2 P)))].
+Qed.
+Print Assumptions C09_judge_cyc_sound.
+
+(* C09_hist_no_loss for the report of the implementation: whatever happened to the earlier reports *)
+Theorem C09_judge_cyc_no_loss : forall V t0 evs0 evs' nobs land evs2 o r s,
+  cyc_ok (V, t0, (evs0 ++ evs') ++ ECycle nobs land :: evs2) o = true ->
+  let st2 := reached V t0 (evs0 ++ evs') in
+  In r (d_reports (reached V t0 evs0)) -> cr_lo r <= s <= cr_hi r ->
+  cycle_open st2 = true -> In (cr_chain r) (live_chains st2) -> in_window V st2 r = true ->
+  ~ In (cr_chain r, s) (d_exec st2) -> ~ In (cr_chain r, s) (d_blocked st2) ->
+  exists outs ob, o = Ok outs /\
+    nth_error outs (length (filter (fun e => match e with ECycle _ _ => true | _ => false end) (evs0 ++ evs'))) = Some ob /\
+    In (cr_chain r, s) (obs_offered ob).
+Proof. exact cyc_no_loss. Qed.
+Print Assumptions C09_judge_cyc_no_loss.
+
+(* C09_hist_never_reexecuted for the report of the implementation *)
+Theorem C09_judge_cyc_never_reexecuted : forall V t0 evs0 evs' nobs land evs2 o m,
+  cyc_ok (V, t0, (evs0 ++ evs') ++ ECycle nobs land :: evs2) o = true ->
+  In m (d_exec (reached V t0 evs0)) ->
+  exists outs ob, o = Ok outs /\
+    nth_error outs (length (filter (fun e => match e with ECycle _ _ => true | _ => false end) (evs0 ++ evs'))) = Some ob /\
+    ~ In m (obs_offered ob).
+Proof. exact cyc_never_reexecuted. Qed.
+Print Assumptions C09_judge_cyc_never_reexecuted.
+
+(* sinks ExecSys_cycle_* -> sys_judge = ExecSys_check.sys_judge_noclass (whole execute cycles of one DON over a world
+   with ground truth).  The soundness lemmas are proved once in Proofs/JudgeSoundExecSysP.v (the f+1 clauses (i)-(iv) are
+   restated in Props/C07.v, C07_judge_sys_sound); here the two clauses C09 is about. *)
+Require Verif.Check.ExecSys_check Verif.Proofs.JudgeSoundExecSysP.
+Module C09SysK := Verif.Check.ExecSys_check.
+Module C09JSX := Verif.Proofs.JudgeSoundExecSysP.
+
+(* never re-executed: nothing the destination shows as executed is in any report of a history that passes *)
+Theorem C09_judge_sys_sound_noreexec :
+  forall (g : C09SysK.scfg) (prev : ExecSys.outcome) (rs : list C09SysK.sround_in) (o : C09SysK.sys_out),
+  C09SysK.sys_safe (g, prev, rs) o = true -> C09SysK.s_live g = true ->
+  forall (vals : list bool) (x : ExecSys.outcome) (r : ExecReport.creport) (m : ExecReport.msg),
+    In (vals, Ok x) o -> In r (ExecSys.o_report x) -> In m (ExecReport.r_msgs r) ->
+    ~ In (ExecReport.r_src r, ExecReport.m_seq m) (C09SysK.s_executed g).
+Proof. exact C09JSX.sys_safe_noreexec_sound. Qed.
+Print Assumptions C09_judge_sys_sound_noreexec.
+
+(* no loss: outside the recorded class (the only thing sys_judge_noclass masks), a history that passes has a Filter
+   outcome whose report holds every eligible pending message of the world *)
+Theorem C09_judge_sys_sound_live :
+  forall (i : C09SysK.sys_in) (o : C09SysK.sys_out),
+  (if N.eqb (C09SysK.sys_known i) 0 then C09SysK.sys_live i o else true) = true -> C09SysK.sys_known i = 0%N ->
+  C09SysK.s_live (fst (fst i)) = true -> C09SysK.s_expect (fst (fst i)) <> [] ->
+  exists (vals : list bool) (x : ExecSys.outcome), In (vals, Ok x) o /\ ExecSys.o_state x = 4%N /\
+    forall c s, In (c, s) (C09SysK.s_expect (fst (fst i))) ->
+      exists r m, In r (ExecSys.o_report x) /\ ExecReport.r_src r = c /\ In m (ExecReport.r_msgs r) /\ ExecReport.m_seq m = s.
+Proof.
+  exact (fun i o H K => C09JSX.sys_live_sound i o (C09JSX.sys_live_noclass_sound i o H K)).
+Qed.
+Print Assumptions C09_judge_sys_sound_live.
+
+(* (a) on a concrete cycle (four oracles, one deviating in every round): the model's history passes sys_judge_noclass *)
+Theorem C09_judge_sys_model_passes_example :
+  C09SysK.sys_safe C09JSX.SysCase.i (C09SysK.sys_model C09JSX.SysCase.i) = true /\
+  C09SysK.sys_known C09JSX.SysCase.i = 0%N /\
+  C09SysK.sys_judge_noclass [(C09JSX.SysCase.i, C09SysK.sys_model C09JSX.SysCase.i)] = [].
+Proof.
+  exact (let H := C09JSX.SysCase.sys_case_passes in
+         conj (proj1 H) (conj (proj1 (proj2 (proj2 (proj2 H)))) (proj1 (proj2 (proj2 (proj2 (proj2 (proj2 H)))))))).
+Qed.
+Print Assumptions C09_judge_sys_model_passes_example.
